@@ -136,3 +136,6 @@ pub fn catch<T, F: FnOnce() -> T + std::panic::UnwindSafe>(f: F) -> Result<T, St
 pub fn silence_panics() {
     std::panic::set_hook(Box::new(|_| {}));
 }
+
+pub mod net;
+pub mod sctp_peer;
